@@ -34,6 +34,7 @@ func init() {
 	register("C18", true, checkC18)
 	register("C16", true, checkC16)
 	register("C01", true, checkC01)
+	register("C06", false, checkC06)
 }
 
 func main() {
